@@ -36,6 +36,12 @@ pub fn simple_beh_gecko(reg: &str, occ: &[&str], nframes: usize, nitems: usize, 
 /// As `simple_beh_gecko` with the frame ids given (rollbacks: ids that go back; gaps: ids that jump ahead).
 /// Before 2.2 a frame is delimited by a change of id: consecutive equal ids must not be given for regime A.
 pub fn simple_beh_ids(reg: &str, occ: &[&str], ids: &[i64], nitems: usize, ngecko: usize) -> Beh {
+	simple_beh_absent(reg, occ, ids, nitems, ngecko, &|_, _| false)
+}
+
+/// As `simple_beh_ids`; `absent(frame index, character index)` says which characters send nothing in which frame
+/// (before 2.2 at least one character must be present in every frame: a frame is opened by a Pre event).
+pub fn simple_beh_absent(reg: &str, occ: &[&str], ids: &[i64], nitems: usize, ngecko: usize, absent: &dyn Fn(usize, usize) -> bool) -> Beh {
 	let nframes = ids.len();
 	let v22 = reg != "A";
 	let v30 = reg == "C";
@@ -92,12 +98,18 @@ pub fn simple_beh_ids(reg: &str, occ: &[&str], ids: &[i64], nitems: usize, ngeck
 			}
 			steps.push([i + 1, closed]);
 		}
+		let mut first_of_frame = true;
 		for (ci, c) in chars.iter().enumerate() {
+			if absent(i, ci) {
+				fin.pre[ci].toks.push(0);
+				continue;
+			}
 			hist.push(ev("pre", id, c.0 as i64, c.1 as i64, hist.len() + 1));
 			fin.pre[ci].toks.push(hist.len());
-			if !v22 && ci == 0 && i > 0 {
+			if !v22 && first_of_frame && i > 0 {
 				closed = i;
 			}
+			first_of_frame = false;
 			steps.push([i + 1, closed]);
 		}
 		if v30 {
@@ -108,6 +120,10 @@ pub fn simple_beh_ids(reg: &str, occ: &[&str], ids: &[i64], nitems: usize, ngeck
 			}
 		}
 		for (ci, c) in chars.iter().enumerate() {
+			if absent(i, ci) {
+				fin.post[ci].toks.push(0);
+				continue;
+			}
 			hist.push(ev("post", id, c.0 as i64, c.1 as i64, hist.len() + 1));
 			fin.post[ci].toks.push(hist.len());
 			steps.push([i + 1, closed]);
